@@ -110,7 +110,26 @@ func c01Case(w *fw.W, idx int, r *fw.Rand) {
 	if idx < len(c01Deterministic) {
 		call = "Run"
 	}
-	if idx >= len(c01Deterministic) && r.P(1, 25) {
+	if idx >= len(c01Deterministic) && r.P(1, 40) {
+		// kept code (computed values, functions) whose source ends in a dice term with a
+		// parenthesised operand, followed by blanks / line breaks / a tail, and read afterwards by
+		// its precompiled code, in the same program or in the next one
+		e := r.Pick([]string{"22dkh(1)", "3dq(2)", "4dmin(2)", "(5)dk(3)", "1 + 2dk(1)", "(2)d(3)", "2d(3)", "d(4)", "2d6kh(1)", "b(2)", "3a(8)", "`{d}`", "[d][0]", "(d)"})
+		blanks := strings.Repeat(r.Pick([]string{" ", " ", "\t", "\n"}), r.Intn(10))
+		def := r.Pick([]string{"&kv = " + e, "&kv = " + e, "func kf() { " + e + blanks + "}", "^st&kv=" + e})
+		reader := r.Pick([]string{"kv", "kv + kv", "kf()", "`{kv}`", "[kv, kv]"})
+		if r.Bool() {
+			prior = def + blanks + r.Pick([]string{"", "reason", "理由 d", ";", "#"})
+			src = reader
+		} else {
+			src = def + blanks + r.Pick([]string{"\n", ";", " ;\n"}) + reader
+		}
+		fam = "kept-code-tail"
+		if cfg.DefSide == "1 +" {
+			cfg.DefSide = "20"
+		}
+		call = r.Pick([]string{"Run", "Run", "Parse+RunAfterParsed×2", "RunExpr"})
+	} else if idx >= len(c01Deterministic) && r.P(1, 25) {
 		// stale program: a long earlier program whose instructions refer to its source text
 		// (default-sided dice, annotations, function/computed bodies, templates), then a short
 		// input that does not parse, driven by a host that ignores Parse's verdict
